@@ -51,8 +51,8 @@ var gspell = map[string][]string{
 	"ident":     {"a", "b", "Foo", "x-y", "_z9", "DIV", "h1", "solid", `\0000411`, `x\00004a9`}, // (six-digit escapes followed by a further hex digit)
 	"prop":      {"color", "Margin-Top", "B", "x", "WIDTH", "-webkit-Box", "font"},
 	"important": {"important", "IMPORTANT", "Important"},
-	"num":       {"0", "1", "42", "1.5", ".5", "1e3", "-1", "+2"},
-	"dim":       {"1px", "2em", ".5s", "10Q", "-3deg"},
+	"num":       {"0", "1", "42", "1.5", ".5", "1e3", "-1", "+2", "1e+3", "2.5E+1", "4e-2"},
+	"dim":       {"1px", "2em", ".5s", "10Q", "-3deg", "1e+3px", "2E-1em"},
 	"pct":       {"50%", "0%", "1.5%", "100%"},
 	"str":       {`"s"`, `'s'`, `"a b"`, `'x;y'`, `"{"`, `""`, `"/*"`, `'}'`},
 	"hash":      {"#fff", "#id", "#A1b2", "#-x"},
@@ -116,7 +116,12 @@ func gselfcheck() {
 			}
 			if !ok {
 				fmt.Fprintf(os.Stderr, "cssp: spelling %q of atom %s is not what the table says (%d tokens)\n", s, a, len(toks))
-				os.Exit(2)
+				if a == "S" || a == "C" || a == "W" || gmulti[a] {
+					os.Exit(2)
+				}
+				// a one-token atom (each spelling is one token by CSS Syntax 4) that css.Lexer splits: not the harness's
+				// error -- the documents are run all the same and the units that hold the pieces are judged against the
+				// expectation, which names the atom's whole text as ONE token of Values()
 			}
 		}
 	}
